@@ -337,7 +337,11 @@ def model_st(draw, cplx=None, max_modes=6, max_sites=4, beta_lo=0.1, beta_hi=200
     beta = draw(beta_st(beta_lo, beta_hi))
     symm = draw(symm_st(sites, symm_modes, symm_kinds))
     osp = draw(st.sampled_from(list(order_spins)))
-    return {"cplx": bool(cplx), "sites": sites, "terms": terms, "order_spins": osp, "symm": symm, "beta": beta}
+    rep = draw(st.integers(0, 3)) == 0
+    m = {"cplx": bool(cplx), "sites": sites, "terms": terms, "order_spins": osp, "symm": symm, "beta": beta}
+    if rep:
+        m["repeat"] = True
+    return m
 
 
 # ---- selections ----------------------------------------------------------------------------------
@@ -418,7 +422,10 @@ def special_model_st(draw, cplx=None, max_modes=4, beta_lo=0.1, beta_hi=200.0, s
             terms.append(P("hop3", labs[a], labs[a + 1], [t, 0.0]))
     beta = draw(beta_st(beta_lo, beta_hi))
     symm = draw(symm_st(sites, symm_modes))
-    return {"cplx": bool(cplx), "sites": sites, "terms": terms, "order_spins": 0, "symm": symm, "beta": beta, "family": kind}
+    m = {"cplx": bool(cplx), "sites": sites, "terms": terms, "order_spins": 0, "symm": symm, "beta": beta, "family": kind}
+    if draw(st.integers(0, 3)) == 0:
+        m["repeat"] = True
+    return m
 
 
 def any_model_st(special_share=0.3, **kw):
